@@ -34,6 +34,16 @@ TEXTS = {
         "note": TB,
         "technique": 'Lean 4 proof (handler-level, all fault plans) + co-simulation with a per-action unfinished-run counter',
     },
+    'C01': {
+        "text": "FAULT ENUMERATION with co-simulation, on top of kernel-checked mechanism theorems. Enumeration (sim-recovery): for generated workflows (steps, callbacks, timeouts, hooks; 1-2 runs; user functions deterministic in the record, failing their first 0-1 invocations) "
+                "the failure-free execution is recorded, then EVERY placement of one fault - error before the effect, error after the effect, lease loss at the call - at every adapter call of every background operation of that execution, and a lease loss before every operation "
+                "(thorough: also sampled pairs), each followed by fault-free settling with callbacks re-issued; the final status, object, run state AND version of every run must equal the failure-free ones and the quiescence monitors (every write published, hooks ran) must be silent; "
+                "every action of every such execution is co-simulated on the Lean engine model. Kernel-checked for all environments: (1) every write is pending or published in every reachable state; (2) a failing delivery moves no cursor and fails the consume loop; a failing relay step keeps the entry; "
+                "(3) once the effect of an announcement is persisted, handling that announcement again - any shard, ANY step function, any fault plan - changes nothing and consumes no outcome (exactly-once persisted effect); (4) a failing operation parks its process in back-off or at the role gate and no parking state is a dead end.",
+        "note": TB + "The convergence clause is established by enumeration over sampled workflows and process orders, not by a theorem (it needs determinism and fairness as hypotheses on whole executions); two service instances are covered only through lease loss/re-acquisition of one instance.",
+        "technique": "exhaustive single-fault (and sampled pair) enumeration at every adapter call of the real workflow under the gated simulator, co-simulated on the Lean engine model + Lean 4 proofs of the outbox / ack / version-gate / supervision mechanisms",
+        "category": "fault_enumeration",
+    },
     'C20': {
         "text": "Kernel-checked over the scheduler model (cron instants as a parameter, so for every specification): a run is created only when a timer was armed and its deadline has passed; the deadline armed is the first cron instant strictly after the creation of the latest run "
                 "(or after the reading instant when there is none); nothing is created while the filter answers false, the previous run is unfinished or the deadline has not passed; and for EVERY sequence of iterations, non-decreasing clock readings, filter answers, completions and role losses "
@@ -133,7 +143,7 @@ TEXTS = {
 }
 
 NOT_APPLICABLE = {p: "check under construction in this session; will be claimed once its theorems and tie exist" for p in
-                  ["C01"]}
+                  []}
 
 NOTES = ("One engine: Lean 4 model + theorems, regenerated facts (T1/T2), co-simulation (T3). ./check <id> quick|thorough; ./check replay <path>. "
          "known-findings.json lists genuine defects that are recorded rather than repaired.")
